@@ -14,22 +14,22 @@ RSq(x) == RMul(x, x)
 Rows(A) == Len(A)
 Cols(A) == IF Len(A) = 0 THEN 0 ELSE Len(A[1])
 
-MkVec(n, F(_)) == [i \in 1..n |-> F(i)]
-MkMat(n, m, F(_, _)) == [i \in 1..n |-> [j \in 1..m |-> F(i, j)]]
+MkVec(n, F(_)) == RForce([i \in 1..n |-> F(i)])
+MkMat(n, m, F(_, _)) == RForce([i \in 1..n |-> [j \in 1..m |-> F(i, j)]])
 
-MZero(n, m) == [i \in 1..n |-> [j \in 1..m |-> R0]]
-MId(n) == [i \in 1..n |-> [j \in 1..n |-> IF i = j THEN R1 ELSE R0]]
-VZero(n) == [i \in 1..n |-> R0]
-VUnit(n, k) == [i \in 1..n |-> IF i = k THEN R1 ELSE R0]
+MZero(n, m) == RForce([i \in 1..n |-> [j \in 1..m |-> R0]])
+MId(n) == RForce([i \in 1..n |-> [j \in 1..n |-> IF i = j THEN R1 ELSE R0]])
+VZero(n) == RForce([i \in 1..n |-> R0])
+VUnit(n, k) == RForce([i \in 1..n |-> IF i = k THEN R1 ELSE R0])
 
-VAdd(u, v) == [i \in 1..Len(u) |-> RAdd(u[i], v[i])]
-VSub(u, v) == [i \in 1..Len(u) |-> RSub(u[i], v[i])]
-VScale(s, v) == [i \in 1..Len(v) |-> RMul(s, v[i])]
-VNeg(v) == [i \in 1..Len(v) |-> RNeg(v[i])]
+VAdd(u, v) == RForce([i \in 1..Len(u) |-> RAdd(u[i], v[i])])
+VSub(u, v) == RForce([i \in 1..Len(u) |-> RSub(u[i], v[i])])
+VScale(s, v) == RForce([i \in 1..Len(v) |-> RMul(s, v[i])])
+VNeg(v) == RForce([i \in 1..Len(v) |-> RNeg(v[i])])
 VDot(u, v) == RDot(u, v)
 VNorm2(v) == RDot(v, v)
 VMaxAbs(v) == IF Len(v) = 0 THEN R0 ELSE RVecMaxAbs(v)
-VSeg(v, from, len) == [i \in 1..len |-> v[from + i - 1]]
+VSeg(v, from, len) == RForce([i \in 1..len |-> v[from + i - 1]])
 VCat(u, v) == u \o v
 
 MMul(A, B) == RMatMul(A, B)
@@ -38,25 +38,28 @@ MAdd(A, B) == RMatAdd(A, B)
 MSub(A, B) == RMatSub(A, B)
 MScale(s, A) == RMatScale(s, A)
 MNeg(A) == RMatScale(RFromInt(-1), A)
-MT(A) == [j \in 1..Cols(A) |-> [i \in 1..Rows(A) |-> A[i][j]]]
+MT(A) == RForce([j \in 1..Cols(A) |-> [i \in 1..Rows(A) |-> A[i][j]]])
 MInv(A) == RMatInv(A)
+\* inverse rounded to a multiple of 2^-320: used where the operand is itself an enclosure (series results)
+MInvD(A) == RMatInvRound(A, 320)
 MaxAbs(A) == IF Rows(A) = 0 \/ Cols(A) = 0 THEN R0 ELSE RMatMaxAbs(A)
 NormInf(A) == RMatNormInf(A)
 MRound(A, bits) == RMatRound(A, bits)
-MCol(A, j) == [i \in 1..Rows(A) |-> A[i][j]]
+MCol(A, j) == RForce([i \in 1..Rows(A) |-> A[i][j]])
 MRow(A, i) == A[i]
-MFromCols(cols) == [i \in 1..Len(cols[1]) |-> [j \in 1..Len(cols) |-> cols[j][i]]]
+MFromCols(cols) == LET cs == RForce(cols) IN RForce([i \in 1..Len(cs[1]) |-> [j \in 1..Len(cs) |-> cs[j][i]]])
 
 \* sub-block of h rows and w columns whose top-left entry is (r, c)
-Block(A, r, c, h, w) == [i \in 1..h |-> [j \in 1..w |-> A[r + i - 1][c + j - 1]]]
+Block(A, r, c, h, w) == RForce([i \in 1..h |-> [j \in 1..w |-> A[r + i - 1][c + j - 1]]])
 \* A with the block whose top-left entry is (r, c) replaced by Y
 Place(A, r, c, Y) ==
-  [i \in 1..Rows(A) |-> [j \in 1..Cols(A) |->
-     IF i >= r /\ i < r + Rows(Y) /\ j >= c /\ j < c + Cols(Y) THEN Y[i - r + 1][j - c + 1] ELSE A[i][j]]]
+  LET ra == Rows(A)  ca == Cols(A)  ry == Rows(Y)  cy == Cols(Y)
+  IN RForce([i \in 1..ra |-> [j \in 1..ca |->
+     IF i >= r /\ i < r + ry /\ j >= c /\ j < c + cy THEN Y[i - r + 1][j - c + 1] ELSE A[i][j]]])
 \* [[A, B], [C, D]]
 Block2(A, B, C, D) ==
-  [i \in 1..(Rows(A) + Rows(C)) |->
-     IF i <= Rows(A) THEN A[i] \o B[i] ELSE C[i - Rows(A)] \o D[i - Rows(A)]]
+  LET ra == Rows(A)  rc == Rows(C)
+  IN RForce([i \in 1..(ra + rc) |-> IF i <= ra THEN A[i] \o B[i] ELSE C[i - ra] \o D[i - ra]])
 
 \* block diagonal arrangement of a sequence of square matrices
 RECURSIVE BlockDiagAcc(_, _, _)
